@@ -125,8 +125,8 @@ structure Cfg where
 /-- `batch_size or self._max_batch_size` (iter_utils.py:41, 650) -/
 def effBatch (n : Nat) : Nat := if n = 0 then 4096 else n
 
-/-- a fresh `IteratorQueue(prefetch_size)` -/
-def freshQueue (prefetch : Nat) : Queue.Shared := { cap := prefetch }
+/-- a fresh `IteratorQueue(prefetch_size)`; its only consumer `_next_batch` passes `keep_partial=True` -/
+def freshQueue (prefetch : Nat) : Queue.Shared := { cap := prefetch, keepPartial := true }
 
 /-- label of a queue-level operation on the k-th queue -/
 def relabel (k : Nat) (lbl : String) : String :=
@@ -150,7 +150,7 @@ def beginNext (s : Shared) (t : Thread) (n : Nat) : Thread :=
     | .client _ _ => { t with pc := .done, replies := t.replies ++ [r], outcome := some (.err .timeout) }
     | _ => { t with pc := .done, replies := t.replies ++ [r] }
   | some g =>
-    { t with pc := .nbGet, g := g, qt := { prog := .batchKeep (effBatch n), pc := .bAcq } }
+    { t with pc := .nbGet, g := g, qt := { prog := .batchLoop (effBatch n) true, pc := .bAcq } }
 
 /-- a request is issued: the call fails at once when the server has been stopped -/
 def callNext (s : Shared) (t : Thread) (n : Nat) : Thread :=
